@@ -260,6 +260,11 @@ def narrow(ctx):
                         from bounds import MirBounds
                         ub = MirBounds(ctx, f).operand(o)
                         fits = ub is not None and ub < (1 << db)
+                        if not fits:
+                            import intervals as _iv
+                            iv_ = _iv.Intervals(ctx, f).operand(o)
+                            if _iv.fits(iv_, dst):
+                                fits, ub = True, iv_[1]
                     if sb is not None and db is not None and sb > db and fits:
                         res.ok({"function": f.path, "cast": "%s -> %s" % (src, dst), "fits_because": "operand bounded by %d" % ub}, nontrivial=True)
                     elif sb is not None and db is not None and sb > db:
@@ -455,6 +460,11 @@ def narrow_in(pid, modules, what):
                             continue
                         from bounds import MirBounds
                         ub = MirBounds(ctx, f).operand(o)
+                        if not (ub is not None and ub < (1 << db)) and src != "char":
+                            import intervals as _iv
+                            iv_ = _iv.Intervals(ctx, f).operand(o)
+                            if _iv.fits(iv_, dst):
+                                ub = iv_[1] if iv_[0] >= 0 else None
                         if ub is not None and ub < (1 << db):
                             res.ok({"function": f.path, "cast": "%s -> %s" % (src, dst), "fits_because": "operand bounded by %d" % ub}, nontrivial=True)
                         else:
